@@ -11,6 +11,7 @@ import Chrono.Proofs.Rfc2822ScanSoundL
 import Chrono.Proofs.ParsedZonedL
 import Chrono.Proofs.Rfc2822InbandL
 import Chrono.Proofs.Rfc2822ItemL
+import Chrono.Proofs.Rfc2822RejectL
 import Chrono.Extracted.Rfc2822
 
 namespace Chrono.Props.C11
@@ -25,6 +26,38 @@ theorem scanner_complete (s : List Nat) (f : Fields) (h : Rfc2822 s f) (hr : Set
   have := parse_rfc2822_complete s f h hr
   unfold Parse.parse Rfc2822.ITEMS Parse.parse_internal
   simp only [this, Parse.parse_internal]
+
+/-- `parse` with the single item `RFC2822` on a string of the grammar whose fields are NOT all inside
+the setter ranges (day 0 or > 31, year beyond `i32`/`i64`, hour > 23, minute > 59, second > 60): the
+scanner itself returns an error (the first out-of-range `Parsed::set_*`, or `scan::number`) -/
+theorem scanner_rejects (s : List Nat) (f : Fields) (h : Rfc2822 s f) (hr : ¬ SetterRanges f) :
+    ∃ e, Parse.parse Parsed.new s Rfc2822.ITEMS = .error e := by
+  obtain ⟨e, he⟩ := parse_rfc2822_rejects s f h hr
+  refine ⟨e, ?_⟩
+  unfold Parse.parse Rfc2822.ITEMS Parse.parse_internal
+  simp only [he]
+
+/-- **out_of_range_rejected.**  A string of the grammar spelling a field outside the setter ranges is
+rejected by value by `parse_from_rfc2822` (`Err`, never a panic, never a value). -/
+theorem out_of_range_rejected (s : List Nat) (f : Fields) (h : Rfc2822 s f) (hr : ¬ SetterRanges f) :
+    ∃ e, Rfc2822.parse_from_rfc2822 s = .ok (.error e) := by
+  obtain ⟨e, he⟩ := scanner_rejects s f h hr
+  refine ⟨e, ?_⟩
+  unfold Rfc2822.parse_from_rfc2822
+  rw [he]
+
+/-- on the grammar the scanner succeeds exactly inside the setter ranges -/
+theorem scanner_ok_iff (s : List Nat) (f : Fields) (h : Rfc2822 s f) :
+    (∃ p, Parse.parse Parsed.new s Rfc2822.ITEMS = .ok p) ↔ SetterRanges f := by
+  constructor
+  · rintro ⟨p, hp⟩
+    apply Classical.byContradiction
+    intro hr
+    obtain ⟨e, he⟩ := scanner_rejects s f h hr
+    rw [he] at hp
+    cases hp
+  · intro hr
+    exact ⟨_, scanner_complete s f h hr⟩
 
 /-- **reader_accepts_spec** (completeness over the grammar).  Every string of the RFC 2822 date-time
 syntax (optional day-name, one- or two-digit day, month name in any case, 2/3/4+-digit year,
@@ -107,24 +140,50 @@ theorem reader_total (s : List Nat) : ∃ r, Rfc2822.parse_from_rfc2822 s = .ok 
     obtain ⟨r, hr', _⟩ := Chrono.Proofs.ParsedRes.to_datetime_spec _ (inType_parsedOf f hr hm (by omega))
     exact ⟨r, hr'⟩
 
-/-- acceptance is exactly validity on the grammar: a string spelling fields `f` (inside the setter
-ranges) is accepted iff `f` is valid -/
-theorem accepts_iff_valid (s : List Nat) (f : Fields) (h : Rfc2822 s f) (hr : SetterRanges f) :
+/-- the fields a string of the grammar spells have month ≤ 12 and a non-negative year -/
+theorem grammar_month_year (s : List Nat) (f : Fields) (h : Rfc2822 s f) : f.month ≤ 12 ∧ 0 ≤ f.year := by
+  obtain ⟨_, _, _, _, _, _, _, yy, _, _, _, _, _, _, _, _, _, _, _, _, _, _, _, _, hmn, _, _, _, hyv, _⟩ := h
+  obtain ⟨i, hi, _, hmi⟩ := hmn
+  have := yearOf_ge yy
+  omega
+
+/-- **accepts_iff_valid.**  Acceptance is exactly validity on the grammar: a string spelling fields
+`f` — ANY fields, no range hypothesis — is accepted iff `f` is valid. -/
+theorem accepts_iff_valid (s : List Nat) (f : Fields) (h : Rfc2822 s f) :
     (∃ z, Rfc2822.parse_from_rfc2822 s = .ok (.ok z)) ↔ Valid f := by
   constructor
   · rintro ⟨z, hz⟩
-    have hm : f.month ≤ 12 ∧ 0 ≤ f.year := by
-      obtain ⟨_, _, _, _, _, _, _, yy, _, _, _, _, _, _, _, _, _, _, _, _, _, _, _, _, hmn, _, _, _, hyv, _⟩ := h
-      obtain ⟨i, hi, _, hmi⟩ := hmn
-      have := yearOf_ge yy
-      omega
-    have hin := inType_parsedOf f hr hm.1 (by omega)
-    unfold Rfc2822.parse_from_rfc2822 at hz
-    rw [scanner_complete s f h hr] at hz
-    exact (resolve_sound f hin z hz).1
+    by_cases hr : SetterRanges f
+    · have hm := grammar_month_year s f h
+      have hin := inType_parsedOf f hr hm.1 (by omega)
+      unfold Rfc2822.parse_from_rfc2822 at hz
+      rw [scanner_complete s f h hr] at hz
+      exact (resolve_sound f hin z hz).1
+    · obtain ⟨e, he⟩ := out_of_range_rejected s f h hr
+      rw [he] at hz
+      cases hz
   · intro hv
     obtain ⟨z, hz, _⟩ := reader_accepts_spec s f h hv
     exact ⟨z, hz⟩
+
+/-- **grammar_unambiguous_partial.**  A string that spells fields inside the setter ranges spells no
+other fields.  (`_partial`: for a string BOTH of whose readings lie outside the setter ranges — all
+rejected, `out_of_range_rejected` — uniqueness of the reading is not proved; the full statement
+`Rfc2822 s f → Rfc2822 s f' → f = f'` needs a scanner-free uniqueness argument over the 17 pieces.) -/
+theorem grammar_unambiguous_partial (s : List Nat) (f f' : Fields) (h : Rfc2822 s f) (h' : Rfc2822 s f')
+    (hr : SetterRanges f) : f = f' := by
+  have hr' : SetterRanges f' := (scanner_ok_iff s f' h').mp ⟨_, scanner_complete s f h hr⟩
+  have e := scanner_complete s f h hr
+  rw [scanner_complete s f' h' hr'] at e
+  injection e with e
+  exact (parsedOf_inj f' f hr'.2.2.2.1 hr.2.2.2.1 e).symm
+
+/-- every accepted string has exactly one reading: if `parse_from_rfc2822 s = Ok z` then the fields
+`s` spells are unique (and valid, and denote `z`: `reader_sound`) -/
+theorem accepted_reading_unique (s : List Nat) (z : Zoned) (hz : Rfc2822.parse_from_rfc2822 s = .ok (.ok z))
+    (f f' : Fields) (h : Rfc2822 s f) (h' : Rfc2822 s f') : f = f' := by
+  have hv : Valid f := (accepts_iff_valid s f h).mp ⟨z, hz⟩
+  exact grammar_unambiguous_partial s f f' h h' (setterRanges_of_valid f hv)
 
 /-! ## the writer's standard form and the round trip -/
 
@@ -133,6 +192,24 @@ it can show (day-name, year 0–9999, seconds 00–60, whole-minute offset of le
 string of the reader's grammar spelling exactly those fields. -/
 theorem writer_form_in_grammar (f : Fields) (h : StdFields f) : Rfc2822 (stdText f) f :=
   std_in_grammar f h
+
+/-- **wall_date_exists_unique.**  Every well-formed zone-aware value has exactly one wall-clock date
+`(Y, o)` (year and day of the year of `instant + offset`) — the `(Y, o)` that `writer_shape`,
+`item_shape` and the round-trip theorems quantify over is determined by `z`. -/
+theorem wall_date_exists_unique (z : Zoned) (hz : ZInv z) :
+    ∃ Y o, WallDate z Y o ∧ ∀ Y' o', WallDate z Y' o' → Y' = Y ∧ o' = o := by
+  obtain ⟨Y, o, hw⟩ := wallDate_exists z hz
+  exact ⟨Y, o, hw, fun Y' o' hw' => wallDate_unique z Y' Y o' o hw' hw⟩
+
+/-- **writer_shape_total** (`writer_shape` without a wall-clock date handed in).  For every well-formed
+value there is a wall-clock date — its only one — and `to_rfc2822` is the standard form of the
+wall-clock fields at that date, or the documented panic outside years 0–9999. -/
+theorem writer_shape_total (z : Zoned) (hz : ZInv z) :
+    ∃ Y o, WallDate z Y o ∧
+      Rfc2822.to_rfc2822 z =
+        if 0 ≤ Y ∧ Y ≤ 9999 then .ok (stdHead (fieldsOf z Y o) ++ shownZone z.off) else .panic := by
+  obtain ⟨Y, o, hw⟩ := wallDate_exists z hz
+  exact ⟨Y, o, hw, to_rfc2822_shape z hz Y o hw⟩
 
 /-- **writer_shape.**  For EVERY well-formed zone-aware value `z` (any sub-second part, any offset of
 less than a day) with wall-clock date `(Y, o)`: if the wall-clock year is in 0–9999, `to_rfc2822 z`
@@ -320,22 +397,21 @@ theorem writer_shape_samples :
 /-! ## a contradicting day-name is rejected -/
 
 /-- **weekday_mismatch_rejected.**  A string of the grammar whose day-name is not the weekday of its
-date is rejected by value (`Err`, never a panic, never a value) — whatever the other fields are. -/
-theorem weekday_mismatch_rejected (s : List Nat) (f : Fields) (h : Rfc2822 s f) (hr : SetterRanges f)
+date is rejected by value (`Err`, never a panic, never a value) — whatever the other fields are, in
+or out of any range (no hypothesis on them). -/
+theorem weekday_mismatch_rejected (s : List Nat) (f : Fields) (h : Rfc2822 s f)
     (w : Weekday) (hw : f.weekday = some w)
     (hne : (w.toNat : Int) ≠ weekdayOf (dayNum f.year f.month f.day)) :
     ∃ e, Rfc2822.parse_from_rfc2822 s = .ok (.error e) := by
-  have hm : f.month ≤ 12 ∧ 0 ≤ f.year := by
-    obtain ⟨_, _, _, _, _, _, _, yy, _, _, _, _, _, _, _, _, _, _, _, _, _, _, _, _, hmn, _, _, _, hyv, _⟩ := h
-    obtain ⟨i, hi, _, hmi⟩ := hmn
-    have := yearOf_ge yy
-    omega
-  have hp := inType_parsedOf f hr hm.1 (by omega)
-  obtain ⟨e, he⟩ := resolve_weekday_mismatch f hp w hw hne
-  refine ⟨e, ?_⟩
-  unfold Rfc2822.parse_from_rfc2822
-  rw [scanner_complete s f h hr]
-  exact he
+  by_cases hr : SetterRanges f
+  · have hm := grammar_month_year s f h
+    have hp := inType_parsedOf f hr hm.1 (by omega)
+    obtain ⟨e, he⟩ := resolve_weekday_mismatch f hp w hw hne
+    refine ⟨e, ?_⟩
+    unfold Rfc2822.parse_from_rfc2822
+    rw [scanner_complete s f h hr]
+    exact he
+  · exact out_of_range_rejected s f h hr
 
 /-! ## the year rule -/
 
@@ -424,11 +500,42 @@ example : Rfc2822 exObs exObsFields ∧ Valid exObsFields := by
   unfold Valid
   decide
 
-/-- a contradicting day-name: `Mon, 1 Jul 2003 …` (that day is a Tuesday) meets the hypotheses of
-`weekday_mismatch_rejected` -/
-example : SetterRanges { exStdFields with weekday := some .mon } ∧
+/-- a contradicting day-name: `Mon, 1 Jul 2003 10:52:37 +0200` (that day is a Tuesday) is a string of
+the grammar and meets the hypotheses of `weekday_mismatch_rejected` -/
+def exMon : List Nat :=
+  [77, 111, 110, 44, 32, 49, 32, 74, 117, 108, 32, 50, 48, 48, 51, 32, 49, 48, 58, 53, 50, 58, 51, 55, 32,
+   43, 48, 50, 48, 48]
+example : Rfc2822 exMon { exStdFields with weekday := some .mon } ∧
+    SetterRanges { exStdFields with weekday := some .mon } ∧
     ((Weekday.mon.toNat : Int) ≠ weekdayOf (dayNum 2003 7 1)) := by
-  unfold SetterRanges; decide
+  refine ⟨⟨[], [77, 111, 110, 44], [32], [49], [32], [74, 117, 108], [32], [50, 48, 48, 51], [32], [49, 48], [],
+    [], [53, 50], [58, 51, 55], [32], [43, 48, 50, 48, 48], [],
+    Ws.nil, Or.inr ⟨0, [77, 111, 110], by decide, by decide, rfl, rfl⟩, ws_sp, by decide, Or.inl rfl, by decide,
+    ws1_sp, ⟨6, by decide, by decide, rfl⟩, ws1_sp, by decide, by decide, by decide, ws1_sp,
+    by decide, rfl, by decide, Ws.nil, Ws.nil, by decide, rfl, by decide,
+    Or.inr ⟨[], [51, 55], Ws.nil, by decide, rfl, rfl, rfl⟩, ws1_sp,
+    Zone.num false 48 50 48 48 (by decide) (by decide) (by decide) (by decide), Comments.nil, rfl⟩, ?_, ?_⟩
+  · unfold SetterRanges; decide
+  · decide
+
+/-- a contradicting day-name on fields OUTSIDE the setter ranges: `Mon, 32 Jul 2003 24:52:37 +0200` is a
+string of the grammar (day 32, hour 24), meets the hypotheses of `weekday_mismatch_rejected` and of
+`out_of_range_rejected` -/
+def exBad : List Nat :=
+  [77, 111, 110, 44, 32, 51, 50, 32, 74, 117, 108, 32, 50, 48, 48, 51, 32, 50, 52, 58, 53, 50, 58, 51, 55, 32,
+   43, 48, 50, 48, 48]
+def exBadFields : Fields := ⟨some .mon, 32, 7, 2003, 24, 52, some 37, 7200⟩
+example : Rfc2822 exBad exBadFields ∧ ¬ SetterRanges exBadFields ∧
+    ((Weekday.mon.toNat : Int) ≠ weekdayOf (dayNum 2003 7 32)) := by
+  refine ⟨⟨[], [77, 111, 110, 44], [32], [51, 50], [32], [74, 117, 108], [32], [50, 48, 48, 51], [32], [50, 52], [],
+    [], [53, 50], [58, 51, 55], [32], [43, 48, 50, 48, 48], [],
+    Ws.nil, Or.inr ⟨0, [77, 111, 110], by decide, by decide, rfl, rfl⟩, ws_sp, by decide, Or.inr rfl, by decide,
+    ws1_sp, ⟨6, by decide, by decide, rfl⟩, ws1_sp, by decide, by decide, by decide, ws1_sp,
+    by decide, rfl, by decide, Ws.nil, Ws.nil, by decide, rfl, by decide,
+    Or.inr ⟨[], [51, 55], Ws.nil, by decide, rfl, rfl, rfl⟩, ws1_sp,
+    Zone.num false 48 50 48 48 (by decide) (by decide) (by decide) (by decide), Comments.nil, rfl⟩, ?_, ?_⟩
+  · unfold SetterRanges; decide
+  · decide
 
 /-- the year rule on concrete digit strings: `03` → 2003, `50` → 1950, `103` → 2003, `0654` → 654 -/
 example : yearOf [48, 51] = 2003 ∧ yearOf [53, 48] = 1950 ∧ yearOf [49, 48, 51] = 2003 ∧
